@@ -297,6 +297,53 @@ def clash_states(run, r):
     return dict(states=n_states, suggestions_applied=n_sug)
 
 
+def partial_fact_states(run, r):
+    """States whose facts include a statement with two to four quantified variables of which the other selected facts
+    determine only some (!x y z. Q x --> T x y z together with Q a): the fact a forward suggestion advertises must be the
+    line its application adds, whatever the number and order of the variables left quantified.  The goal is not provable
+    from the facts, so that no solving suggestion hides the others; the facts are selected in both orders."""
+    import itertools
+    from kernel.type import TVar, TFun, BoolType
+    texts = ["(!x::'a. !y::'a. !z::'a. Q x --> T x y z) --> Q a --> C",
+             "(!x::'a. !y::'a. !z::'a. Q y --> T x y z) --> Q a --> C",
+             "(!x::'a. !y::'a. Q x --> S x y) --> Q a --> C",
+             "(!x::'a. !y::'a. !z::'a. Q x --> R y --> T x y z) --> Q a --> C",
+             "(!x::'a. !y::'a. !z::'a. Q x --> R y --> T x y z) --> Q a --> R b --> C",
+             "(!x::'a. !y::'a. !z::'a. S x y --> T x y z) --> S a b --> C",
+             "(!x::'a. !y::'a. !z::'a. !w::'a. Q z --> T x y z & R w) --> Q a --> C"]
+    n_states = n_sug = 0
+    for text in texts:
+        try:
+            A_ = TVar('a')
+            context.set_context('logic', vars={'a': A_, 'b': A_, 'C': BoolType, 'Q': TFun(A_, BoolType), 'R': TFun(A_, BoolType),
+                                               'S': TFun(A_, A_, BoolType), 'T': TFun(A_, A_, A_, BoolType)})
+            state = server.parse_init_state(parser.parse_term(text))
+            copy.copy(state).check_proof()
+        except RecursionError:
+            raise
+        except Exception as e:
+            run.stat('partial_fact_state_exc:' + type(e).__name__)
+            continue
+        n_states += 1
+        gaps = [pos for pos, it in all_items(state.prf) if it.rule == 'sorry']
+        for gpos in gaps[:1]:
+            facts = [pos for pos, it in all_items(state.prf) if it.th is not None and it.rule != 'sorry' and earlier_visible(pos, gpos)]
+            sels = [list(p_) for k_ in (1, 2, 3) for p_ in itertools.permutations(facts, k_)][:24]
+            for sel in sels:
+                try:
+                    sugs = state.search_method(ItemID(gpos), [ItemID(f) for f in sel])
+                except RecursionError:
+                    raise
+                except Exception as e:
+                    run.stat('search_exc:' + type(e).__name__)
+                    continue
+                for sug in sugs[:20]:
+                    out = try_suggestion(run, state, sug, 'generated[partially determined fact]', 'goal %s, facts %s' % (text, sel))
+                    run.count(('partial-fact', text, tuple(sel), sug.get('method_name'), sug.get('theorem')), nontrivial=(out == 'ok'))
+                    n_sug += 1
+    return dict(states=n_states, suggestions_applied=n_sug)
+
+
 def nested_split_states(run, r):
     """States reached by splitting the conclusion once or twice (so that later lines depend on the open goal only through
     other lines) with existential / universal / conjunctive assumptions available to select."""
@@ -382,6 +429,7 @@ def run_check(tier, seed):
     run.cov['search'] = dict(states=n_states, suggestions_applied=n_sug, theories=thys)
     run.cov['search_binder_clash_states'] = clash_states(run, r)
     run.cov['search_nested_split_states'] = nested_split_states(run, r)
+    run.cov['search_partial_fact_states'] = partial_fact_states(run, r)
     run.cov['search_attribute_states'] = attribute_states(run, r, ['logic', 'nat'] if tier == 'quick' else ['logic', 'set', 'function', 'nat', 'int', 'list', 'real'],
                                                           30 if tier == 'quick' else 400)
     if first:
